@@ -831,8 +831,25 @@ fn nonexportable(ctx: &Ctx, out: &mut Outcome, known: &[Known]) {
         typegen::Field { ident: Some("inner".into()), ty: typegen::TyExpr::Vec(Box::new(typegen::TyExpr::User(0, vec![]))), ..Default::default() },
         typegen::Field { ident: Some("b".into()), ..Default::default() },
     ]);
-    m.types.push(outer);
+    m.types.push(outer.clone());
     m.insts.push(typegen::TyExpr::User(1, vec![]));
+    // .. and one more step away: Root -> Outer -> escaped (the root's own imports are fine, a
+    // dependency of it cannot be exported)
+    let mut root = outer;
+    root.ident = format!("{}Root", root.ident.trim_end_matches("Outer"));
+    root.body = typegen::Body::Named(vec![
+        typegen::Field { ident: Some("mid".into()), ty: typegen::TyExpr::Option(Box::new(typegen::TyExpr::User(1, vec![]))), ..Default::default() },
+        typegen::Field { ident: Some("c".into()), ..Default::default() },
+    ]);
+    m.types.push(root.clone());
+    m.insts.push(typegen::TyExpr::User(2, vec![]));
+    // an ordinary type, exported after all the failures: they must not have left anything behind
+    // (in the process, in the thread) that shows up in a later export
+    let mut plain = root;
+    plain.ident = format!("{}Plain", plain.ident.trim_end_matches("Root"));
+    plain.body = typegen::Body::Named(vec![typegen::Field { ident: Some("d".into()), ..Default::default() }]);
+    m.types.push(plain);
+    m.insts.push(typegen::TyExpr::User(3, vec![]));
     let id = m.types[0].ident.clone();
     m.extra_roots = vec!["i32".into(), "String".into(), format!("Vec<{id}>"), format!("Option<{id}>"), format!("({id}, {id})"), format!("std::collections::HashMap<String, {id}>"), "()".into()];
     let n_insts = m.insts.len();
@@ -844,20 +861,49 @@ fn nonexportable(ctx: &Ctx, out: &mut Outcome, known: &[Known]) {
         std::fs::create_dir_all(&dir).ok();
         for t in 0..(n_insts + n_extra) {
             for how in ["export", "export_all", "export_all_to"] {
+                // (exporting the far root alone is fine: its own import can be spelled)
+                if (t == 2 && how == "export") || t == 3 {
+                    continue;
+                }
                 r.evaluations += 1;
                 let before = snapshot(cwd);
                 let resp = s.request(&json!({"cmd": "export", "m": p.index, "t": t, "how": how, "dir": dir.to_string_lossy()}));
-                let label = if t == 0 { "type whose export_to climbs above the root".to_string() } else if t < n_insts { "type that depends on a type whose export_to climbs above the root".to_string() } else { p.module.extra_roots[t - n_insts].clone() };
+                let label = if t == 0 { "type whose export_to climbs above the root".to_string() } else if t == 2 { "type two references away from a type whose export_to climbs above the root".to_string() } else if t < n_insts { "type that depends on a type whose export_to climbs above the root".to_string() } else { p.module.extra_roots[t - n_insts].clone() };
                 match resp {
                     Err(e) => r.failures.push(json!({"signature": format!("server-{e}"), "message": format!("{how} of {label}: server {e}"), "case": case_of(p, json!({}))})),
                     Ok(v) if v.get("err").is_some() => {
-                        if snapshot(cwd) != before {
+                        // (the far root's own file may have been written before its dependency failed:
+                        // it is a target of the call, not "another file")
+                        let after = snapshot(cwd);
+                        let own = format!("/{}.ts", p.module.types.get(2).map(|td| td.ts_name()).unwrap_or_default());
+                        let touched_other = after.iter().any(|(k, v)| before.get(k) != Some(v) && !(t == 2 && k.ends_with(&own))) || before.keys().any(|k| !after.contains_key(k));
+                        if t == 2 {
+                            for k in after.keys().filter(|k| k.ends_with(&own)) {
+                                std::fs::remove_file(k).ok();
+                            }
+                            let _ = s.request(&json!({"cmd": "reset"}));
+                        }
+                        if touched_other {
                             r.failures.push(json!({"signature": "failed-export-wrote-files", "message": format!("{how} of {label} failed but changed files"), "case": case_of(p, json!({}))}));
                         }
                     }
                     Ok(v) => r.failures.push(json!({"signature": if v.get("panic").is_some() { "nonexportable-panic" } else { "nonexportable-ok" }, "message": format!("{how}() of {label} must return an error, got {v}"), "case": case_of(p, json!({"root": label, "how": how}))})),
                 }
             }
+        }
+        // after all these failures: an ordinary export, compared with the type's standalone text
+        r.evaluations += 1;
+        let plain_name = p.module.types[3].ts_name();
+        let resp = s.request(&json!({"cmd": "export", "m": p.index, "t": 3, "how": "export_all_to", "dir": dir.to_string_lossy()}));
+        let info = s.request(&json!({"cmd": "info", "m": p.index, "t": 3}));
+        let written = std::fs::read_to_string(dir.join(format!("{plain_name}.ts"))).ok();
+        match (resp, info) {
+            (Ok(v), Ok(info)) if v["ok"] == true => {
+                if written.as_deref() != okstr(&info, "export_to_string") {
+                    r.failures.push(json!({"signature": "export-after-failures-differs", "message": format!("after the failed exports, exporting `{plain_name}` wrote\n{}\ninstead of its standalone text\n{}", written.unwrap_or_default(), okstr(&info, "export_to_string").unwrap_or("")), "case": case_of(p, json!({}))}));
+                }
+            }
+            (resp, _) => r.failures.push(json!({"signature": "export-after-failures-failed", "message": format!("after the failed exports, exporting `{plain_name}` did not succeed: {resp:?}"), "case": case_of(p, json!({}))})),
         }
         r
     });
